@@ -10,6 +10,7 @@ import (
 	"io"
 	"sort"
 	"strings"
+	"sync"
 
 	"github.com/ipld/go-ipld-prime/codec/dagcbor"
 	"github.com/ipld/go-ipld-prime/datamodel"
@@ -29,6 +30,7 @@ import (
 
 func init() {
 	gens["C10"] = genC10
+	execs["rcptconc"] = guard(execRcptConc)
 	execs["rcpt"] = guard(execRcpt)
 }
 
@@ -95,6 +97,10 @@ func genC10(cfg Config, emit Emit) error {
 		nw = 2000
 	}
 	genWire(cfg, emit, nw, 0)
+	// one signer, many goroutines
+	for i, k := range []string{"rsa0", "rsa1", "ed3", "wrap2", "rsa0", "rsa1"} {
+		emit("rcptconc", []string{k, "8", "4", []string{"262144", "1024", "65536"}[i%3]}, "concurrent-issue/"+k[:2], true)
+	}
 	return nil
 }
 
@@ -510,4 +516,81 @@ func execRcpt(a []string) Result {
 		oracle = "fail:C10-undetected kind=" + s.Alter + " the altered receipt still verifies"
 	}
 	return Result{Impl: fmt.Sprintf("verified=%s|same=%s|altered=%s", tf(verified), tf(same), tf(altered)), Oracle: oracle}
+}
+
+// execRcptConc: receipts issued concurrently by ONE signer (as a server does for a batch): every one of
+// them must carry a valid signature over its own outcome. args = [key, goroutines, per goroutine, bytes]
+func execRcptConc(a []string) Result {
+	pools()
+	sg, err := pickSigner(a[0])
+	if err != nil {
+		return Result{Impl: "key-error"}
+	}
+	g, per, size := atoi(a[1]), atoi(a[2]), atoi(a[3])
+	alice := edPool[1]
+	inv, err := invocation.Invoke(alice, sg, ucan.NewCapability("test/run", alice.DID().String(), NbMap{F: map[string]any{}}), delegation.WithNoExpiration(), delegation.WithNonce("conc"))
+	if err != nil {
+		return Result{Impl: "invoke-error"}
+	}
+	type out struct {
+		root []byte
+		err  string
+	}
+	outs := make([]out, g*per)
+	var wg sync.WaitGroup
+	start := make(chan struct{})
+	for i := 0; i < g; i++ {
+		wg.Add(1)
+		go func(i int) {
+			defer wg.Done()
+			defer func() {
+				if r := recover(); r != nil {
+					outs[i*per].err = fmt.Sprintf("panic: %v", r)
+				}
+			}()
+			<-start
+			for k := 0; k < per; k++ {
+				val := tvBytes(bytes.Repeat([]byte{byte(i), byte(k)}, size/2))
+				rc, err := receipt.Issue(sg, result.Ok[tvBuilder, tvBuilder](tvBuilder{val}), ran.FromLink(inv.Link()))
+				if err != nil {
+					outs[i*per+k].err = err.Error()
+					continue
+				}
+				outs[i*per+k].root = rc.Root().Bytes()
+			}
+		}(i)
+	}
+	close(start)
+	wg.Wait()
+	bad := 0
+	why := ""
+	for _, o := range outs {
+		if o.err != "" {
+			bad++
+			why = o.err
+			continue
+		}
+		n, err := decodeAny(o.root)
+		if err != nil {
+			bad++
+			why = "undecodable root"
+			continue
+		}
+		ocm, e1 := n.LookupByString("ocm")
+		sig, e2 := n.LookupByString("sig")
+		if e1 != nil || e2 != nil {
+			bad++
+			continue
+		}
+		sb, _ := sig.AsBytes()
+		if !sg.Verifier().Verify(nodeBytes(ocm), signatureOf(sb)) {
+			bad++
+			why = "signature does not verify"
+		}
+	}
+	oracle := "ok"
+	if bad > 0 {
+		oracle = fmt.Sprintf("fail:C10-unverified %d of %d receipts issued concurrently by one signer are not authentic (%s)", bad, len(outs), why)
+	}
+	return Result{Impl: fmt.Sprintf("issued=%d|bad=%d", len(outs), bad), Oracle: oracle}
 }
